@@ -129,7 +129,11 @@ def ref_lp(wire):
     r = rc.strict_lp(wire)
     if r['fragmented']:
         raise rc.Reject('fragmented')
-    # nested Nack / CachePolicy are parsed strictly by the library (unknown critical inside rejected)
+    # nested Nack / CachePolicy are parsed strictly by the library (unknown critical inside rejected) - but only the
+    # header it actually takes; with repeated / out-of-order headers it is not stated which one counts, so the
+    # interiors are not judged there (the field comparison is skipped for such envelopes as well)
+    if not lp_in_order(r['types']):
+        return r
     buf = bytes(wire)
     _, vs, ve = rc.outer(buf, rc.L['LP_PACKET'])
     for (t, ts, cvs, cve) in rc.children(buf, vs, ve):
